@@ -147,6 +147,11 @@ func New(o Options) *Rig {
 			w.Header().Set("Location", "ws://evil.example:8080/ws/after-redirect")
 			w.WriteHeader(307)
 			return
+		case strings.HasPrefix(rq.URL.Path, "/slowfail/"):
+			// a handshake that is refused after a while
+			time.Sleep(300 * time.Millisecond)
+			http.Error(w, "no websocket here", http.StatusForbidden)
+			return
 		case strings.HasPrefix(rq.URL.Path, "/redir-rel/"):
 			w.Header().Set("Location", "/ws/after-redirect")
 			w.WriteHeader(302)
